@@ -31,7 +31,19 @@ pub fn inputs() -> Vec<(&'static str, Vec<Kv>)> {
         ("fanout-40-with-index", fan40),
         // a final root with 256 transitions: count byte "1 means 256", index table, final output
         ("fanout-256-final-root", std::iter::once((vec![], 9u64)).chain((0..=255u8).map(|b| (vec![b], 1 + (b as u64) * 3))).collect()),
+        // the same with 8-byte outputs: the largest single output run of a node (257 x 8 bytes)
+        ("fanout-256-final-root-8-byte-outputs", std::iter::once((vec![], u64::MAX - 5)).chain((0..=255u8).map(|b| (vec![b], (1u64 << 60) + crate::model::mix64(b as u64) % (1u64 << 59)))).collect()),
     ]
+}
+
+/// Larger inputs (12 KB .. 70 KB of output) for the policy sinks only.
+pub fn large_inputs() -> Vec<(&'static str, Vec<Kv>)> {
+    let gen = |n: u64, seed: u64| -> Vec<Kv> {
+        let mut v: Vec<Kv> = (0..n).map(|i| (format!("{:06}", i * 7 + seed).into_bytes(), crate::model::mix64(i + seed) >> (8 * (i % 7)))).collect();
+        v.sort();
+        v
+    };
+    vec![("large-12KB", gen(900, 1)), ("large-40KB", gen(3000, 2)), ("large-70KB", gen(5500, 3))]
 }
 
 /// Runs the real builder over the scripted sink. Returns (sink, error text).
@@ -116,6 +128,7 @@ fn policy_from(v: &Value) -> Policy {
         "cap" => Policy::Cap(v["c"].as_u64().unwrap() as usize),
         "interrupt" => Policy::InterruptEach,
         "capinterrupt" => Policy::CapInterrupt(v["c"].as_u64().unwrap() as usize),
+        "paged" => Policy::Paged(v["c"].as_u64().unwrap() as usize),
         _ => Policy::Default,
     }
 }
@@ -126,6 +139,7 @@ fn policy_json(p: Policy) -> Value {
         Policy::Cap(c) => json!({"kind": "cap", "c": c}),
         Policy::InterruptEach => json!({"kind": "interrupt"}),
         Policy::CapInterrupt(c) => json!({"kind": "capinterrupt", "c": c}),
+        Policy::Paged(c) => json!({"kind": "paged", "c": c}),
     }
 }
 
@@ -175,7 +189,10 @@ fn run_prefilled(kvs: &[Kv], reference: &[u8], p: usize) -> Result<(), String> {
 }
 
 pub fn replay(case: &Value) -> Result<String, String> {
-    let kvs = kvs_from(&case["kvs"]);
+    let kvs = match case["large"].as_str() {
+        Some(n) => large_inputs().into_iter().find(|x| x.0 == n).map(|x| x.1).ok_or("unknown large input")?,
+        None => kvs_from(&case["kvs"]),
+    };
     let r = reference(&kvs)?;
     let script = script_from(&case["script"]);
     let policy = policy_from(&case["policy"]);
@@ -189,7 +206,7 @@ pub fn replay(case: &Value) -> Result<String, String> {
 pub fn plan(tier: Tier) -> Plan {
     let mut p = Plan::new("C07", "model_checking");
     let thorough = tier.thorough();
-    p.rule = "for each input of a fixed list (empty set; only the empty key; one key; three keys with 5-byte values; a map using every node form; a 40-way fan-out whose 256-byte index goes through one write_all) the real builder runs over a scripted sink for EVERY answer sequence with <= d deviations (a deviation = any shorter non-empty acceptance of that call's buffer, or Err(Interrupted)); plus policy sinks deviating on every call (cap 1..16, Interrupted before every call, both), BufWriter capacities {1,2,3,8,64,8192} (with <= 1 deviation underneath) and Vecs pre-filled with {1,7,8,16,4096} bytes; oracle: sink bytes == in-memory build, bytes_written() == bytes accepted after every insert, result opens/verifies/has the model content. non-trivial = executions with at least one deviation".into();
+    p.rule = "for each input of a fixed list (empty set; only the empty key; one key; three keys with 5-byte values; a map using every node form; a 40-way fan-out whose 256-byte index goes through one write_all) the real builder runs over a scripted sink for EVERY answer sequence with <= d deviations (a deviation = any shorter non-empty acceptance of that call's buffer, or Err(Interrupted)); plus policy sinks deviating on every call (cap 1..16, Interrupted before every call, both, page-bounded writers), also on outputs of 12..70 KB, BufWriter capacities {1,2,3,8,64,8192} (with <= 1 deviation underneath) and Vecs pre-filled with {1,7,8,16,4096} bytes; oracle: sink bytes == in-memory build, bytes_written() == bytes accepted after every insert, result opens/verifies/has the model content. non-trivial = executions with at least one deviation".into();
     p.assumptions = vec!["the sink honours the io::Write contract (never reports more than it accepted)".into()];
     let shards = 16usize;
     for (name, kvs) in inputs() {
@@ -259,6 +276,7 @@ pub fn plan(tier: Tier) -> Plan {
             pols.push(Policy::InterruptEach);
             pols.push(Policy::CapInterrupt(1));
             pols.push(Policy::CapInterrupt(3));
+            pols.extend([Policy::Paged(7), Policy::Paged(64), Policy::Paged(512), Policy::Paged(4096), Policy::Paged(8192)]);
             for pol in pols {
                 st.evals += 1;
                 st.states += 1;
@@ -303,6 +321,22 @@ pub fn plan(tier: Tier) -> Plan {
                 st.count("prefilled_runs", 1);
                 if let Err(msg) = run_prefilled(kvs, &r, pre) {
                     rep.violation(format!("{} prefilled {}", name, pre), msg, json!({"container": "prefilled", "p": pre, "kvs": kvs_json(kvs), "script": [], "policy": {"kind": "default"}}));
+                }
+            }
+        }));
+    }
+    // larger outputs (12..70 KB) through the policy sinks (cap, interrupt, paged)
+    for (name, kvs) in large_inputs() {
+        p.units.push(unit("large-inputs-policy-sinks", format!("{} policies", name), move |st, rep| {
+            let r = match reference(&kvs) { Ok(r) => r, Err(_) => return };
+            for pol in [Policy::Cap(1), Policy::Cap(3), Policy::Cap(7), Policy::Cap(16), Policy::InterruptEach, Policy::CapInterrupt(2), Policy::Paged(512), Policy::Paged(1000), Policy::Paged(4096), Policy::Paged(8192), Policy::Paged(65536)] {
+                st.evals += 1;
+                st.states += 1;
+                st.nontrivial += 1;
+                st.count("large_policy_runs", 1);
+                match run_one(&kvs, &r, &[], pol) {
+                    Ok(c) => st.transitions += c.len() as u64,
+                    Err(msg) => rep.violation(format!("{} {:?}", name, pol), msg, json!({"large": name, "script": [], "policy": policy_json(pol)})),
                 }
             }
         }));
